@@ -100,6 +100,12 @@ var Magic = [8]byte{'c', 'o', 'm', 'p', 'i', 's', 'z', 'd'}
 
 const Version = uint8(1)
 
+// minHeaderSize is the size of a header without metadata: magic, length, value size, bucket count and version.
+const minHeaderSize = 8 + 4 + 8 + 4 + 1
+
+// maxHeaderSize is the size of a header with the largest possible metadata.
+const maxHeaderSize = minHeaderSize + 1 + indexmeta.MaxNumKVs*(1+indexmeta.MaxKeySize+1+indexmeta.MaxValueSize)
+
 // Header occurs once at the beginning of the index.
 type Header struct {
 	ValueSize  uint64
@@ -109,13 +115,16 @@ type Header struct {
 
 // Load checks the Magic sequence and loads the header fields.
 func (h *Header) Load(buf []byte) error {
+	if len(buf) < minHeaderSize {
+		return fmt.Errorf("invalid header length")
+	}
 	// Use a magic byte sequence to bail fast when user passes a corrupted/unrelated stream.
 	if *(*[8]byte)(buf[:8]) != Magic {
 		return fmt.Errorf("not a radiance compactindex file")
 	}
 	// read length of the rest of the header
 	lenWithoutMagicAndLen := binary.LittleEndian.Uint32(buf[8:12])
-	if lenWithoutMagicAndLen < 12 {
+	if lenWithoutMagicAndLen < minHeaderSize-12 {
 		return fmt.Errorf("invalid header length")
 	}
 	if lenWithoutMagicAndLen > uint32(len(buf)) {
